@@ -15,6 +15,12 @@ thread_local! {
     static MAX_REQ: Cell<usize> = const { Cell::new(0) };
     static NET: Cell<isize> = const { Cell::new(0) };
     static PEAK: Cell<isize> = const { Cell::new(0) };
+    static LABEL: Cell<&'static str> = const { Cell::new("") };
+}
+
+/// Name of the library call about to run on this thread (printed if the hard cap refuses a request).
+pub fn set_label(l: &'static str) {
+    LABEL.with(|c| c.set(l));
 }
 
 /// Hard cap for one request while a scope is open.
@@ -59,7 +65,7 @@ fn on_free(size: usize) {
 
 fn report_refusal(size: usize) {
     // async-signal-safe style: format into a stack buffer and write(2) to stderr
-    let mut buf = [0u8; 64];
+    let mut buf = [0u8; 160];
     let prefix = b"VERIF-ALLOC-CAP size=";
     let mut n = 0;
     for &b in prefix {
@@ -81,6 +87,15 @@ fn report_refusal(size: usize) {
     while d > 0 {
         d -= 1;
         buf[n] = digits[d];
+        n += 1;
+    }
+    for &b in b" label=" {
+        buf[n] = b;
+        n += 1;
+    }
+    let label = LABEL.try_with(|c| c.get()).unwrap_or("");
+    for &b in label.as_bytes().iter().take(60) {
+        buf[n] = b;
         n += 1;
     }
     buf[n] = b'\n';
